@@ -284,6 +284,22 @@ func (fv *FV) applyContract(st *State, spec *FuncSpec, fn *ssa.Function, c *ssa.
 	}
 	// lock ghost state
 	fv.lockEffect(st, spec, args, pos)
+	for _, a := range spec.Acquires {
+		// the callee locks this mutex itself: calling it while holding the mutex (in either mode)
+		// self-deadlocks (Mutex) or can deadlock with a pending writer (RWMutex read lock)
+		m := pre.Eval(a.E)
+		heldNow := false
+		for k, h := range st.held {
+			if h && (k == m.S || k == "R:"+m.S) {
+				heldNow = true
+			}
+		}
+		goal := tTrue
+		if heldNow {
+			goal = tFalse
+		}
+		fv.oblige(st, "lock", "held-at-call:"+short, pos, goal, "callee acquires "+a.Text+": the caller must not hold it")
+	}
 	// snapshot, havoc
 	oldHeap := make(map[string]Term, len(st.heap))
 	for k, v := range st.heap {
